@@ -8,9 +8,9 @@ git diff -- . ':(exclude)demo_*' ':(exclude)seed_notes.md' > /tmp/patch_$NAME.di
 [ -s /tmp/patch_$NAME.diff ] || { echo "no source change"; exit 2; }
 echo "== pytest with change"; /venv/bin/python -m pytest -q -p no:cacheprovider --timeout=900 --continue-on-collection-errors 2>&1 | tail -1 | tee /tmp/pytest_with_$NAME.txt
 echo "== demo with change"; /venv/bin/python demo_$ID.py > /tmp/demo_with_$NAME.txt 2>&1; RC1=$?; tail -3 /tmp/demo_with_$NAME.txt; echo "rc=$RC1"
-git stash -q
+git apply -R /tmp/patch_$NAME.diff
 echo "== demo without change"; /venv/bin/python demo_$ID.py > /tmp/demo_without_$NAME.txt 2>&1; RC0=$?; tail -2 /tmp/demo_without_$NAME.txt; echo "rc=$RC0"
-git stash pop -q
+git apply /tmp/patch_$NAME.diff
 mkdir -p $OUT
 cp /tmp/patch_$NAME.diff $OUT/patch.diff; cp demo_$ID.py $OUT/; [ -f seed_notes.md ] && cp seed_notes.md $OUT/
 echo "$RC1 $RC0 $(cat /tmp/pytest_with_$NAME.txt)" > $OUT/.confirm
